@@ -99,6 +99,12 @@ CLAIMED["C19"] = dict(
     technique="Lean 4 theorems (sorting uniqueness, find-first, retry induction) + spec-server differential harness via httpx.MockTransport",
     note="httpx, urllib.parse quote/unquote round trip (printable ASCII) and JSON parsing are trusted; SmartHomeCloud is not modelled.")
 
+CLAIMED["C20"] = dict(
+    text="Theorems (Lean 4) about a model of _control whose setting table (every property of AirConditioner, whether it has a setter, the kind of its default value) and enumerations are regenerated from the class on every run: for every enumerated setting and member, ANY text whose upper-casing is the member name selects it, and so does its integer value; a non-member integer is kept as a raw fan speed and rejected for every other enumeration; True/False/1/0 give the obvious truth values for every boolean setting (incl. display_on); int and float texts are accepted for number settings; unknown names and properties without a setter are rejected whatever the value; if ANY pair fails to convert (unknown, read-only, ill-typed, or raising) the command performs NO action at all (no connect, nothing sent); otherwise it connects and refreshes first, toggles the display iff the requested state differs from the reported one, sets exactly the named attributes and applies. Tie: the real msmart.cli.main() run in-process on the virtual-time loop (event-loop policy) against a stateful simulated air conditioner whose byte-level decisions are made by the Lean Spec: all members by name in random casing and by value, raw fan speeds, boolean spellings, boundary numbers, display toggling in all four combinations, pairs of settings, a catalogue of invalid names/values before/after valid ones; oracle on the device's final state (named settings applied, all others as reported), exit status, and that an invalid command never contacts the device.",
+    design="DESIGN.md §6 C20",
+    technique="Lean 4 theorems over a conversion/sequencing model with generated tables; full-stack differential run of the real CLI on a simulated device",
+    note="ast.literal_eval and argparse are trusted; literal_eval's outcome is an input of the model (supplied by the real function in the harness).")
+
 NOT_YET = {
 }
 
